@@ -987,6 +987,9 @@ func callBuiltin(caller *frame, callpos token.Pos, fn *ssa.Builtin, args []value
 	case "delete": // delete(map[K]value, K)
 		switch m := args[0].(type) {
 		case *omap:
+			if caller.i.env.sched != nil {
+				caller.i.noteMapAccess(m, true, caller, callpos)
+			}
 			m.delete(caller.i, args[1])
 		default:
 			panic(fmt.Sprintf("illegal map type: %T", m))
